@@ -9,7 +9,7 @@ namespace {
 using namespace BaseGraph;
 
 struct Counters {
-    uint64_t largeIndexGraphs = 0, roundTrips = 0, bytesCompared = 0, handmade = 0, openFailures = 0, labelReads = 0, truncFiles = 0, truncCuts = 0, cutsInsideRecord = 0, cutsAtBoundary = 0,
+    uint64_t bigFiles = 0, bigTruncFiles = 0, largeIndexGraphs = 0, roundTrips = 0, bytesCompared = 0, handmade = 0, openFailures = 0, labelReads = 0, truncFiles = 0, truncCuts = 0, cutsInsideRecord = 0, cutsAtBoundary = 0,
              truncThrew = 0, truncReturned = 0, zeroVertexGraphs = 0, noEdgeGraphs = 0;
     ObsCounters oc;
 } C;
@@ -100,7 +100,8 @@ template <template <class...> class GT, class L> void binary(Reporter &R, uint64
     constexpr bool directed = Dir<GT>::value;
     std::string cls = std::string(Dir<GT>::name()) + "<" + bname<L>() + ">";
     Rng r = caseRng(R.args.seed, hashStr(cls + (handmade ? "hm" : "bin")), sub);
-    GraphSpec s = sub % 4 == 3 ? ioSpecSparse(r, directed) : ioSpec(r, directed);
+    GraphSpec s = sub % 4 == 3 ? ioSpecSparse(r, directed) : (sub % 32 == 5 ? ioSpecBig(r, directed) : ioSpec(r, directed));
+    if (sub % 32 == 5) ++C.bigFiles;
     if (s.n > 64) ++C.largeIndexGraphs;
     if (s.n == 0) ++C.zeroVertexGraphs;
     if (s.edges.empty()) ++C.noEdgeGraphs;
@@ -279,7 +280,7 @@ template <template <class...> class GT, class L> std::string truncOne(const std:
     if (loaded.getSize() > (size_t)n + 100000) return "returned-graph: far more vertices than any complete record names";
     x.n = (unsigned)loaded.getSize();
     ObsCounters oc;
-    std::string e = checkEdgesOnly(loaded, x, oc);
+    std::string e = x.n > 64 ? checkEdgesSparse(loaded, x) : checkEdgesOnly(loaded, x, oc);
     if (!e.empty()) {
         o << "returned-graph: " << e << "; file cut at offset " << cut << " of " << full.size() << " (record size " << rec << ", " << complete << " complete records)";
         return o.str();
@@ -298,8 +299,10 @@ template <template <class...> class GT, class L> void truncate(Reporter &R, uint
     constexpr bool directed = Dir<GT>::value;
     std::string cls = std::string(Dir<GT>::name()) + "<" + bname<L>() + ">";
     Rng r = caseRng(R.args.seed, hashStr(cls + "trunc"), sub);
-    GraphSpec s = ioSpec(r, directed);
+    bool big = sub % 24 == 7;
+    GraphSpec s = big ? ioSpecBig(r, directed) : ioSpec(r, directed);
     while (s.edges.empty()) s = ioSpec(r, directed);
+    if (big) ++C.bigTruncFiles;
     GT<L> g(s.n);
     for (auto &e : insertionOrder(s, 2, r)) g.addEdge(e.first, e.second, BL<L>::make(1 + r.below(1ULL << 40)));
     std::string path = ioTmp(R, "t.bin");
@@ -310,7 +313,23 @@ template <template <class...> class GT, class L> void truncate(Reporter &R, uint
     size_t curCut = 0;
     R.describeCase = [&] { return "{\"class\": " + q(cls) + ", \"graph\": " + q(s.str()) + ", \"file_hex\": " + q(hexOf(full, 400)) + ", \"cut_at\": " + std::to_string(curCut) + "}"; };
     R.distinct.insert(mix64(s.hash(), hashStr(cls)));
-    for (size_t cut = 0; cut <= full.size(); ++cut) {
+    // small files: EVERY cut offset. Files of tens of kilobytes: every offset within two records of a multiple of 4096
+    // (stream-buffer refills), the first and last two records, and 120 seeded offsets
+    std::vector<size_t> cuts;
+    if (!big) {
+        for (size_t cut = 0; cut <= full.size(); ++cut) cuts.push_back(cut);
+    } else {
+        std::set<size_t> cs;
+        for (size_t k = 0; k <= full.size(); k += 4096)
+            for (size_t d = 0; d <= 2 * rec + 1; ++d) {
+                if (k + d <= full.size()) cs.insert(k + d);
+                if (k >= d) cs.insert(k - d);
+            }
+        for (size_t d = 0; d <= 2 * rec && d <= full.size(); ++d) { cs.insert(d); cs.insert(full.size() - d); }
+        for (int t = 0; t < 120; ++t) cs.insert((size_t)r.below(full.size() + 1));
+        cuts.assign(cs.begin(), cs.end());
+    }
+    for (size_t cut : cuts) {
         curCut = cut;
         writeBytes(path, full.substr(0, cut));
         ++C.truncCuts;
@@ -336,6 +355,8 @@ void flush(Reporter &R) {
     C.oc.flush(R);
     R.count("binary_round_trips", C.roundTrips);
     R.count("graphs_with_large_vertex_indices", C.largeIndexGraphs);
+    R.count("files_of_tens_of_kilobytes_round_tripped", C.bigFiles);
+    R.count("files_of_tens_of_kilobytes_truncated_around_buffer_boundaries", C.bigTruncFiles);
     R.count("file_bytes_compared_with_independent_encoding", C.bytesCompared);
     R.count("hand_made_files_loaded", C.handmade);
     R.count("open_failure_calls", C.openFailures);
